@@ -65,6 +65,48 @@ Proof.
   - specialize (IH I Hv). lia.
 Qed.
 
+
+(* two additive maps that agree on the powers of two below 2^n agree below 2^n *)
+Lemma lin_ext (f g : N -> N) :
+  (forall x y, f (N.lxor x y) = N.lxor (f x) (f y)) -> (forall x y, g (N.lxor x y) = N.lxor (g x) (g y)) ->
+  forall n : nat, (forall i, (i < n)%nat -> f (2 ^ N.of_nat i) = g (2 ^ N.of_nat i)) ->
+  forall c, c < 2 ^ N.of_nat n -> f c = g c.
+Proof.
+  intros Hf Hg.
+  assert (F0 : f 0 = 0) by (pose proof (Hf 0 0) as H; rewrite N.lxor_0_r, N.lxor_nilpotent in H; exact H).
+  assert (G0 : g 0 = 0) by (pose proof (Hg 0 0) as H; rewrite N.lxor_0_r, N.lxor_nilpotent in H; exact H).
+  induction n as [|n IH]; intros B c Hc.
+  - change (2 ^ N.of_nat 0) with 1 in Hc. assert (c = 0) by lia. subst. congruence.
+  - assert (IH' : forall c', c' < 2 ^ N.of_nat n -> f c' = g c') by (apply IH; intros; apply B; lia).
+    rewrite Nnat.Nat2N.inj_succ in Hc.
+    destruct (N.testbit c (N.of_nat n)) eqn:Tb.
+    + set (c' := N.lxor c (2 ^ N.of_nat n)).
+      assert (Ec : c = N.lxor c' (2 ^ N.of_nat n)) by (unfold c'; rewrite N.lxor_assoc, N.lxor_nilpotent, N.lxor_0_r; reflexivity).
+      assert (Hc' : c' < 2 ^ N.of_nat n).
+      { apply lt_pow2_bits. intros i Hi. unfold c'. rewrite N.lxor_spec.
+        destruct (N.eq_dec i (N.of_nat n)) as [->|Hne].
+        - rewrite Tb, N.pow2_bits_true. reflexivity.
+        - rewrite N.pow2_bits_false by congruence. rewrite (proj1 (lt_pow2_bits c _) Hc) by lia. reflexivity. }
+      rewrite Ec, Hf, Hg, (IH' c' Hc'), (B n) by lia. reflexivity.
+    + apply IH'. apply lt_pow2_bits. intros i Hi. destruct (N.eq_dec i (N.of_nat n)) as [->|Hne]; [exact Tb|].
+      apply (proj1 (lt_pow2_bits c _) Hc). lia.
+Qed.
+
+(* multiplication in GF(2^sb) = GF(2)[x]/(poly): carry-less product, then reduction.  Only used as a candidate
+   for the symbol-scaling symmetry of the codes; everything the proofs need about it is checked by
+   computation inside the certificates. *)
+Fixpoint clmul (n : nat) (a b : N) : N :=
+  match n with
+  | O => 0
+  | S k => N.lxor (if N.testbit b (N.of_nat k) then N.shiftl a (N.of_nat k) else 0) (clmul k a b)
+  end.
+Fixpoint polyred (k : nat) (poly sb x : N) : N :=
+  match k with
+  | O => x
+  | S k' => polyred k' poly sb (if N.testbit x (sb + N.of_nat k') then N.lxor x (N.shiftl poly (N.of_nat k')) else x)
+  end.
+Definition gf_mul (poly sb a b : N) : N := polyred (N.to_nat sb - 1) poly sb (clmul (N.to_nat sb) a b).
+
 Section Detect.
   Variable gens : list (N * N).
   Variables shift sb : N.
@@ -173,22 +215,42 @@ Section Detect.
     forallb (fun jr => forallb (fun a => forallb (fun b =>
                negb (N.lxor a b =? 0) && opt_is (lookup A (N.lxor a b)) (fst jr)) (snd jr)) (row 0)) (tableB L).
 
+  (* ---- symbol scaling.  The codes are linear over GF(2^sb): multiplying every symbol of a word by a
+          field element a scales its syndrome symbol-wise.  [sigma a] is that scaling of a W-bit state, written as
+          a GF(2)-linear map (one column per state bit), for a candidate multiplication [mul]; the four checks
+          below are all that is used about [mul]. *)
+  Variable mul : N -> N -> N.
+
+  Definition cols (a : N) : list (N * N) :=
+    map (fun i => (N.of_nat i, N.shiftl (mul a (2 ^ (N.of_nat i mod sb))) (sb * (N.of_nat i / sb))))
+        (seq 0 (N.to_nat W)).
+  Definition sigma (a c : N) : N := gs (cols a) c.
+
+  Definition chk_basis : bool :=
+    forallb (fun a => forallb (fun i => sigma a (step (2 ^ N.of_nat i) 0) =? step (sigma a (2 ^ N.of_nat i)) 0)
+                              (seq 0 (N.to_nat W))) vals.
+  Definition chk_low : bool := forallb (fun a => forallb (fun v => sigma a v =? mul a v) (0 :: vals)) vals.
+  Definition chk_closed : bool :=
+    forallb (fun a => forallb (fun v => negb (mul a v =? 0) && (mul a v <? 2 ^ sb)) vals) vals.
+  Definition chk_inv : bool := forallb (fun v => existsb (fun a => mul a v =? 1) vals) vals.
+
+  (* patterns on the other positions, normalised by scaling so that their first symbol is 1 *)
   Definition checkB1 (A : PositiveMap.t nat) (L : nat) : bool :=
-    forallb (fun jr => forallb (fun x =>
-      match lookup A x with None => true | Some p => Nat.eqb p (fst jr) end) (snd jr)) (tableB L).
+    forallb (fun j => match lookup A (zn j 1) with None => true | Some p => Nat.eqb p j end) (seq 1 (L - 1)).
 
   Definition checkB2 (A : PositiveMap.t nat) (L : nat) : bool :=
     let T := tableB L in
-    forallb (fun jr3 => forallb (fun jr4 =>
-      (fst jr4 <=? fst jr3)%nat ||
-      forallb (fun x => forallb (fun y =>
+    forallb (fun j3 => let x := zn j3 1 in forallb (fun jr4 =>
+      (fst jr4 <=? j3)%nat ||
+      forallb (fun y =>
         match lookup A (N.lxor x y) with
         | None => true
-        | Some p => Nat.eqb p (fst jr3) || Nat.eqb p (fst jr4)
-        end) (snd jr4)) (snd jr3)) T) T.
+        | Some p => Nat.eqb p j3 || Nat.eqb p (fst jr4)
+        end) (snd jr4)) T) (seq 1 (L - 1)).
 
   Definition certificate (L : nat) : bool :=
-    let A := buildA L in checkA A L && checkB1 A L && checkB2 A L.
+    let A := buildA L in
+    checkA A L && checkB1 A L && checkB2 A L && (chk_basis && chk_low && chk_closed && chk_inv).
 
   (* ---- soundness *)
   Lemma in_vals v : v <> 0 -> v < 2 ^ sb -> In v vals.
@@ -212,6 +274,10 @@ Section Detect.
     Hypothesis HA : checkA A L = true.
     Hypothesis HB1 : checkB1 A L = true.
     Hypothesis HB2 : checkB2 A L = true.
+    Hypothesis HS1 : chk_basis = true.
+    Hypothesis HS2 : chk_low = true.
+    Hypothesis HS3 : chk_closed = true.
+    Hypothesis HS4 : chk_inv = true.
 
     Lemma FA2 j v w : (1 <= j < L)%nat -> In v vals -> In w vals ->
       N.lxor v (zn j w) <> 0 /\ lookup A (N.lxor v (zn j w)) = Some j.
@@ -226,22 +292,68 @@ Section Detect.
       apply Nat.eqb_eq in N2. congruence.
     Qed.
 
-    Lemma FB1 j w p : (1 <= j < L)%nat -> In w vals -> lookup A (zn j w) = Some p -> p = j.
+    (* -- consequences of the symmetry checks *)
+    Lemma sigma_lin a x y : sigma a (N.lxor x y) = N.lxor (sigma a x) (sigma a y).
+    Proof. apply gs_lin. Qed.
+
+    Lemma sigma_step0 a c : In a vals -> c < 2 ^ W -> sigma a (step c 0) = step (sigma a c) 0.
     Proof.
-      intros Hj Hw E. unfold checkB1 in HB1. rewrite forallb_forall in HB1.
-      specialize (HB1 _ (in_tableB L j Hj)). cbn [fst snd] in HB1.
-      rewrite forallb_forall in HB1. specialize (HB1 _ (in_row j w Hw)). rewrite E in HB1.
-      apply Nat.eqb_eq. exact HB1.
+      intros Ha Hc.
+      apply (lin_ext (fun c => sigma a (step c 0)) (fun c => step (sigma a c) 0)) with (n := N.to_nat W).
+      - intros x y. rewrite <- (N.lxor_0_r 0) at 1. rewrite step_linear. apply sigma_lin.
+      - intros x y. rewrite sigma_lin. rewrite <- (N.lxor_0_r 0) at 1. apply step_linear.
+      - intros i Hi. unfold chk_basis in HS1. rewrite forallb_forall in HS1. specialize (HS1 a Ha).
+        rewrite forallb_forall in HS1. apply N.eqb_eq. apply HS1. apply in_seq. lia.
+      - rewrite Nnat.N2Nat.id. exact Hc.
     Qed.
 
-    Lemma FB2 j3 j4 x y p : (1 <= j3)%nat -> (j3 < j4)%nat -> (j4 < L)%nat -> In x vals -> In y vals ->
-      lookup A (N.lxor (zn j3 x) (zn j4 y)) = Some p -> p = j3 \/ p = j4.
+    Lemma sigma_low a v : In a vals -> v < 2 ^ sb -> sigma a v = mul a v.
     Proof.
-      intros H1 H2 H3 Hx Hy E. unfold checkB2 in HB2. rewrite forallb_forall in HB2.
-      specialize (HB2 _ (in_tableB L j3 ltac:(lia))). rewrite forallb_forall in HB2.
+      intros Ha Hv. unfold chk_low in HS2. rewrite forallb_forall in HS2. specialize (HS2 a Ha).
+      rewrite forallb_forall in HS2. apply N.eqb_eq. apply HS2.
+      destruct (N.eq_dec v 0) as [->|Hn]; [left; reflexivity|right; apply in_vals; assumption].
+    Qed.
+
+    Lemma mul_closed a v : In a vals -> In v vals -> In (mul a v) vals.
+    Proof.
+      intros Ha Hv. unfold chk_closed in HS3. rewrite forallb_forall in HS3. specialize (HS3 a Ha).
+      rewrite forallb_forall in HS3. specialize (HS3 v Hv). apply andb_true_iff in HS3. destruct HS3 as [C1 C2].
+      apply negb_true_iff, N.eqb_neq in C1. apply N.ltb_lt in C2. apply in_vals; assumption.
+    Qed.
+
+    Lemma mul_inv v : In v vals -> exists a, In a vals /\ mul a v = 1.
+    Proof.
+      intros Hv. unfold chk_inv in HS4. rewrite forallb_forall in HS4. specialize (HS4 v Hv).
+      apply existsb_exists in HS4. destruct HS4 as (a & Ha & E). exists a. split; [assumption|apply N.eqb_eq; assumption].
+    Qed.
+
+    Lemma vals_small v : In v vals -> v < 2 ^ sb.
+    Proof.
+      unfold vals. intros H. apply in_map_iff in H. destruct H as (n & <- & Hn). apply in_seq in Hn.
+      assert (0 < 2 ^ sb) by (apply N.neq_0_lt_0, N.pow_nonzero; discriminate). lia.
+    Qed.
+
+    (* scaling a single-symbol syndrome scales the symbol *)
+    Lemma sigma_zn a j : forall v, In a vals -> v < 2 ^ sb -> sigma a (zn j v) = zn j (mul a v).
+    Proof.
+      induction j as [|j IH]; intros v Ha Hv; [apply sigma_low; assumption|].
+      replace (S j) with (j + 1)%nat by lia. rewrite !zn_add. change (zn 1 ?x) with (step x 0).
+      rewrite sigma_step0 by (try assumption; apply zn_lt, small_W; assumption). rewrite IH by assumption. reflexivity.
+    Qed.
+
+    Lemma FB1 j p : (1 <= j < L)%nat -> lookup A (zn j 1) = Some p -> p = j.
+    Proof.
+      intros Hj E. unfold checkB1 in HB1. rewrite forallb_forall in HB1.
+      specialize (HB1 j ltac:(apply in_seq; lia)). rewrite E in HB1. apply Nat.eqb_eq. exact HB1.
+    Qed.
+
+    Lemma FB2 j3 j4 y p : (1 <= j3)%nat -> (j3 < j4)%nat -> (j4 < L)%nat -> In y vals ->
+      lookup A (N.lxor (zn j3 1) (zn j4 y)) = Some p -> p = j3 \/ p = j4.
+    Proof.
+      intros H1 H2 H3 Hy E. unfold checkB2 in HB2. rewrite forallb_forall in HB2.
+      specialize (HB2 j3 ltac:(apply in_seq; lia)). cbv zeta in HB2. rewrite forallb_forall in HB2.
       specialize (HB2 _ (in_tableB L j4 ltac:(lia))). cbn [fst snd] in HB2.
       apply orb_true_iff in HB2. destruct HB2 as [C|C]; [apply Nat.leb_le in C; lia|].
-      rewrite forallb_forall in C. specialize (C _ (in_row j3 x Hx)).
       rewrite forallb_forall in C. specialize (C _ (in_row j4 y Hy)). rewrite E in C.
       apply orb_true_iff in C. destruct C as [C|C]; apply Nat.eqb_eq in C; auto.
     Qed.
@@ -255,11 +367,15 @@ Section Detect.
       N.lxor (N.lxor (zn db v1) (zn da v2)) v3 <> 0.
     Proof.
       intros H1 H2 H3 I1 I2 I3 Z.
-      destruct (FA2 da v3 v2 ltac:(lia) I3 I2) as [_ LA].
       assert (E : N.lxor v3 (zn da v2) = zn db v1).
       { apply N.lxor_eq. rewrite <- Z. apply N.bits_inj. intro i. rewrite !N.lxor_spec.
         destruct (N.testbit v3 i), (N.testbit (zn da v2) i), (N.testbit (zn db v1) i); reflexivity. }
-      rewrite E in LA. apply FB1 in LA; [lia|lia|assumption].
+      destruct (mul_inv v1 I1) as (a & Ha & Ea).
+      apply (f_equal (sigma a)) in E. rewrite sigma_lin in E.
+      rewrite !sigma_zn in E by (try assumption; apply vals_small; assumption).
+      rewrite sigma_low in E by (try assumption; apply vals_small; assumption). rewrite Ea in E.
+      destruct (FA2 da (mul a v3) (mul a v2) ltac:(lia) (mul_closed a v3 Ha I3) (mul_closed a v2 Ha I2)) as [_ LA].
+      rewrite E in LA. apply FB1 in LA; [lia|lia].
     Qed.
 
     Lemma core4 da db dc v1 v2 v3 v4 : (1 <= da)%nat -> (da < db)%nat -> (db < dc)%nat -> (dc < L)%nat ->
@@ -267,11 +383,15 @@ Section Detect.
       N.lxor (N.lxor (N.lxor (zn dc v1) (zn db v2)) (zn da v3)) v4 <> 0.
     Proof.
       intros H1 H2 H3 H4 I1 I2 I3 I4 Z.
-      destruct (FA2 da v4 v3 ltac:(lia) I4 I3) as [_ LA].
       assert (E : N.lxor v4 (zn da v3) = N.lxor (zn db v2) (zn dc v1)).
       { apply N.lxor_eq. rewrite <- Z. apply N.bits_inj. intro i. rewrite !N.lxor_spec.
         destruct (N.testbit v4 i), (N.testbit (zn da v3) i), (N.testbit (zn db v2) i), (N.testbit (zn dc v1) i); reflexivity. }
-      rewrite E in LA. apply FB2 in LA; [lia|lia|lia|lia|assumption|assumption].
+      destruct (mul_inv v2 I2) as (a & Ha & Ea).
+      apply (f_equal (sigma a)) in E. rewrite !sigma_lin in E.
+      rewrite !sigma_zn in E by (try assumption; apply vals_small; assumption).
+      rewrite sigma_low in E by (try assumption; apply vals_small; assumption). rewrite Ea in E.
+      destruct (FA2 da (mul a v4) (mul a v3) ltac:(lia) (mul_closed a v4 Ha I4) (mul_closed a v3 Ha I3)) as [_ LA].
+      rewrite E in LA. apply FB2 in LA; [lia|lia|lia|lia|apply mul_closed; assumption].
     Qed.
 
     Ltac bound := repeat first [assumption | apply zero_lt_W | apply lxor_lt | apply zn_lt].
@@ -319,8 +439,11 @@ Section Detect.
   Theorem certificate_sound L : certificate L = true ->
     forall e, (length e <= L)%nat -> Forall (fun v => v < 2 ^ sb) e -> (1 <= weight e <= 4)%nat -> pm 0 e <> 0.
   Proof.
-    unfold certificate. intros C. apply andb_true_iff in C. destruct C as [C C3].
-    apply andb_true_iff in C. destruct C as [C1 C2]. exact (no_light_codeword (buildA L) L C1 C2 C3).
+    unfold certificate. intros C. apply andb_true_iff in C. destruct C as [C S].
+    apply andb_true_iff in C. destruct C as [C C3]. apply andb_true_iff in C. destruct C as [C1 C2].
+    apply andb_true_iff in S. destruct S as [S S4]. apply andb_true_iff in S. destruct S as [S S3].
+    apply andb_true_iff in S. destruct S as [S1 S2].
+    exact (no_light_codeword (buildA L) L C1 C2 C3 S1 S2 S3 S4).
   Qed.
 
   (* two words of equal length (at most L) that differ in 1..4 symbols never reach the same state *)
@@ -335,105 +458,104 @@ Section Detect.
     apply N.lxor_nilpotent.
   Qed.
 
-  (* ---- a non-zero target: no word of weight <= 3 within L positions has syndrome D.
-          Used for D = (Bech32 constant) xor (Bech32m constant): up to three substitutions cannot turn a
-          string valid under one constant into a string valid under the other.  Positions are absolute
-          (counted from the end of the word): syndrome D is not invariant under shifts. *)
+  (* ---- a non-zero target D, anchored at the first symbol: two words of n+1 symbols whose FIRST symbols
+          differ and whose remaining n symbols differ in at most two places never reach states that differ
+          by D.  Used for D = (Bech32 constant) xor (Bech32m constant) and the SegWit version symbol.
+          M maps every single-symbol syndrome S(j, v), j < n, to j (checked, not trusted). *)
   Definition tableAll (L : nat) : list (nat * list N) := map (fun j => (j, row j)) (seq 0 L).
 
   Definition buildM (L : nat) : PositiveMap.t nat :=
     fold_left (fun m jr => fold_left (fun m x => PositiveMap.add (N.succ_pos x) (fst jr) m) (snd jr) m)
               (tableAll L) (PositiveMap.empty nat).
 
-  Definition checkM (M : PositiveMap.t nat) (D : N) (L : nat) : bool :=
-    forallb (fun jr => forallb (fun x => negb (x =? D) && opt_is (lookup M x) (fst jr)) (snd jr)) (tableAll L).
+  Definition checkM (M : PositiveMap.t nat) (L : nat) : bool :=
+    forallb (fun jr => forallb (fun x => opt_is (lookup M x) (fst jr)) (snd jr)) (tableAll L).
 
-  Definition checkX2 (M : PositiveMap.t nat) (D : N) (L : nat) : bool :=
-    let T := tableAll L in
-    forallb (fun jr3 => forallb (fun jr4 =>
-      (fst jr4 <=? fst jr3)%nat ||
-      forallb (fun x => forallb (fun y =>
-        negb (N.lxor x y =? D) &&
-        match lookup M (N.lxor D (N.lxor x y)) with
-        | None => true
-        | Some p => Nat.eqb p (fst jr3) || Nat.eqb p (fst jr4)
-        end) (snd jr4)) (snd jr3)) T) T.
+  Definition checkV (M : PositiveMap.t nat) (D : N) (n : nat) : bool :=
+    let T := tableAll n in
+    forallb (fun t =>
+      negb (t =? 0) &&
+      match lookup M t with Some _ => false | None => true end &&
+      forallb (fun jr => forallb (fun x =>
+        match lookup M (N.lxor t x) with None => true | Some p => Nat.eqb p (fst jr) end) (snd jr)) T)
+      (map (fun vx => N.lxor D (zn n vx)) vals).
 
-  Definition certificateX (D : N) (L : nat) : bool :=
-    let M := buildM L in checkM M D L && checkX2 M D L.
+  Definition certificateV (D : N) (n : nat) : bool :=
+    let M := buildM n in checkM M n && checkV M D n.
 
   Lemma in_tableAll L j : (j < L)%nat -> In (j, row j) (tableAll L).
   Proof. intros H. unfold tableAll. apply in_map_iff. exists j. split; [reflexivity|]. apply in_seq. lia. Qed.
 
-  Section SoundX.
+  Section SoundV.
     Variable M : PositiveMap.t nat.
     Variable D : N.
-    Variable L : nat.
-    Hypothesis HM : checkM M D L = true.
-    Hypothesis HX : checkX2 M D L = true.
+    Variable n : nat.
+    Hypothesis HM : checkM M n = true.
+    Hypothesis HV : checkV M D n = true.
 
-    Lemma GM j v : (j < L)%nat -> In v vals -> zn j v <> D /\ lookup M (zn j v) = Some j.
+    Lemma GM j v : (j < n)%nat -> In v vals -> lookup M (zn j v) = Some j.
     Proof.
       intros Hj Hv. unfold checkM in HM. rewrite forallb_forall in HM.
-      specialize (HM _ (in_tableAll L j Hj)). cbn [fst snd] in HM.
+      specialize (HM _ (in_tableAll n j Hj)). cbn [fst snd] in HM.
       rewrite forallb_forall in HM. specialize (HM _ (in_row j v Hv)).
-      apply andb_true_iff in HM. destruct HM as [N1 N2]. apply negb_true_iff, N.eqb_neq in N1. split; [exact N1|].
-      unfold opt_is in N2. destruct (lookup M (zn j v)) as [p|]; [|discriminate]. apply Nat.eqb_eq in N2. congruence.
+      unfold opt_is in HM. destruct (lookup M (zn j v)) as [p|]; [|discriminate]. apply Nat.eqb_eq in HM. congruence.
     Qed.
 
-    Lemma GX j3 j4 x y : (j3 < j4)%nat -> (j4 < L)%nat -> In x vals -> In y vals ->
-      N.lxor (zn j3 x) (zn j4 y) <> D /\
-      forall p, lookup M (N.lxor D (N.lxor (zn j3 x) (zn j4 y))) = Some p -> p = j3 \/ p = j4.
+    Lemma GV vx : In vx vals -> let t := N.lxor D (zn n vx) in
+      t <> 0 /\ lookup M t = None /\
+      forall j x p, (j < n)%nat -> In x vals -> lookup M (N.lxor t (zn j x)) = Some p -> p = j.
     Proof.
-      intros H1 H2 Hx Hy. unfold checkX2 in HX. rewrite forallb_forall in HX.
-      specialize (HX _ (in_tableAll L j3 ltac:(lia))). rewrite forallb_forall in HX.
-      specialize (HX _ (in_tableAll L j4 ltac:(lia))). cbn [fst snd] in HX.
-      apply orb_true_iff in HX. destruct HX as [C|C]; [apply Nat.leb_le in C; lia|].
-      rewrite forallb_forall in C. specialize (C _ (in_row j3 x Hx)).
-      rewrite forallb_forall in C. specialize (C _ (in_row j4 y Hy)).
-      apply andb_true_iff in C. destruct C as [C1 C2]. apply negb_true_iff, N.eqb_neq in C1. split; [exact C1|].
-      intros p E. rewrite E in C2. apply orb_true_iff in C2. destruct C2 as [C2|C2]; apply Nat.eqb_eq in C2; auto.
+      intros Hvx t. unfold checkV in HV. cbv zeta in HV. rewrite forallb_forall in HV.
+      specialize (HV t ltac:(apply in_map_iff; exists vx; split; [reflexivity|assumption])).
+      apply andb_true_iff in HV. destruct HV as [H12 H3]. apply andb_true_iff in H12. destruct H12 as [H1 H2].
+      apply negb_true_iff, N.eqb_neq in H1. split; [exact H1|]. split; [destruct (lookup M t); [discriminate|reflexivity]|].
+      intros j x p Hj Hx E. rewrite forallb_forall in H3. specialize (H3 _ (in_tableAll n j Hj)). cbn [fst snd] in H3.
+      rewrite forallb_forall in H3. specialize (H3 _ (in_row j x Hx)). rewrite E in H3. apply Nat.eqb_eq. exact H3.
     Qed.
 
-    Lemma coreX3 ja jb jc v1 v2 v3 : (ja < jb)%nat -> (jb < jc)%nat -> (jc < L)%nat ->
-      In v1 vals -> In v2 vals -> In v3 vals ->
-      N.lxor (N.lxor (zn jc v1) (zn jb v2)) (zn ja v3) <> D.
+    Theorem anchored_coset c x1 x2 r1 r2 : length r1 = n -> length r2 = n -> x1 <> x2 ->
+      x1 < 2 ^ sb -> x2 < 2 ^ sb -> Forall (fun v => v < 2 ^ sb) r1 -> Forall (fun v => v < 2 ^ sb) r2 ->
+      (hamming r1 r2 <= 2)%nat -> N.lxor (pm c (x1 :: r1)) (pm c (x2 :: r2)) <> D.
     Proof.
-      intros H1 H2 H3 I1 I2 I3 Z.
-      destruct (GM jc v1 H3 I1) as [_ LM]. destruct (GX ja jb v3 v2 H1 ltac:(lia) I3 I2) as [_ GXp].
-      assert (E : N.lxor D (N.lxor (zn ja v3) (zn jb v2)) = zn jc v1).
-      { rewrite <- Z. apply N.bits_inj. intro i. rewrite !N.lxor_spec.
-        destruct (N.testbit (zn jc v1) i), (N.testbit (zn jb v2) i), (N.testbit (zn ja v3) i); reflexivity. }
-      rewrite <- E in LM. apply GXp in LM. lia.
-    Qed.
-
-    Theorem no_light_coset e : (length e <= L)%nat -> Forall (fun v => v < 2 ^ sb) e ->
-      (1 <= weight e <= 3)%nat -> pm 0 e <> D.
-    Proof.
-      intros Hlen He Hw.
-      destruct (decompose (weight e) e eq_refl He) as (p & Lp & -> & Sp & Fp).
+      intros L1 L2 Hx S1 S2 R1 R2 Hh Z.
+      set (vx := N.lxor x1 x2).
+      assert (Ivx : In vx vals).
+      { apply in_vals; [intro E; apply N.lxor_eq in E; contradiction|apply lxor_lt; assumption]. }
+      set (xr := xorl r1 r2).
+      assert (Lxr : length xr = n) by (unfold xr; rewrite xorl_length; congruence).
+      assert (Sxr : Forall (fun v => v < 2 ^ sb) xr) by (apply xorl_small; assumption).
+      (* the difference of the two final states *)
+      assert (E : pm 0 xr = N.lxor D (zn n vx)).
+      { unfold pm_from in Z. cbn [fold_left] in Z. fold (pm (step c x1) r1) in Z. fold (pm (step c x2) r2) in Z.
+        rewrite <- (pm_linear gens shift sb r1 r2 _ _ ltac:(congruence)) in Z. fold xr in Z.
+        rewrite <- step_linear, N.lxor_nilpotent, step_0_v in Z. fold vx in Z.
+        pose proof (pm_linear gens shift sb (repeat 0 n) xr vx 0 ltac:(rewrite repeat_length; congruence)) as P.
+        rewrite N.lxor_0_r, xorl_zeros_l in P by assumption. fold (zn n vx) in P.
+        rewrite P in Z. rewrite <- Z. rewrite (N.lxor_comm (zn n vx)), N.lxor_assoc, N.lxor_nilpotent, N.lxor_0_r. reflexivity. }
+      rewrite hamming_weight in Hh. fold xr in Hh. clearbody xr vx.
+      destruct (GV vx Ivx) as (T0 & TN & T2). cbv zeta in T0, TN, T2. rewrite <- E in T0, TN, T2.
+      destruct (decompose (weight xr) xr eq_refl Sxr) as (p & Lp & Ep & Sp & Fp).
       assert (Hin : forall av, In av p -> In (snd av) vals).
       { intros av I. rewrite Forall_forall in Fp. destruct (Fp av I). apply in_vals; assumption. }
-      destruct p as [|[a4 v4] [|[a3 v3] [|[a2 v2] [|? ?]]]]; cbn [length] in Lp; try lia.
-      - cbn [synp span] in *. rewrite zn_0, N.lxor_0_l. apply GM; [lia|]. apply (Hin (a4, v4)). simpl; auto.
+      rewrite Ep in T0, TN, T2.
+      destruct p as [|[a4 v4] [|[a3 v3] [|? ?]]]; cbn [length] in Lp; try lia.
+      - apply T0. reflexivity.
+      - cbn [synp span] in *. rewrite zn_0, N.lxor_0_l in TN.
+        pose proof (GM a4 v4 ltac:(lia) (Hin (a4, v4) (or_introl eq_refl))) as G. congruence.
       - cbn [synp span] in *.
         pose proof (Hin (a4, v4) ltac:(simpl; auto)) as I4. pose proof (Hin (a3, v3) ltac:(simpl; auto)) as I3. cbn [snd] in *.
-        rewrite zn_0, N.lxor_0_l, !zn1_zn, !zn_lin, <- !zn_add, N.lxor_comm. apply GX; try assumption; lia.
-      - cbn [synp span] in *.
-        pose proof (Hin (a4, v4) ltac:(simpl; auto)) as I4. pose proof (Hin (a3, v3) ltac:(simpl; auto)) as I3.
-        pose proof (Hin (a2, v2) ltac:(simpl; auto)) as I2. cbn [snd] in *.
-        rewrite zn_0, N.lxor_0_l, !zn1_zn, !zn_lin, <- !zn_add. apply coreX3; try assumption; lia.
+        rewrite zn_0, N.lxor_0_l, !zn1_zn, !zn_lin, <- !zn_add in T2.
+        specialize (T2 a4 v4 (a3 + 1 + a4)%nat ltac:(lia) I4).
+        rewrite N.lxor_assoc, N.lxor_nilpotent, N.lxor_0_r in T2. specialize (T2 (GM (a3 + 1 + a4)%nat v3 ltac:(lia) I3)). lia.
     Qed.
-  End SoundX.
+  End SoundV.
 
-  Theorem certificateX_sound D L : certificateX D L = true ->
-    forall c d1 d2, length d1 = length d2 -> (length d1 <= L)%nat ->
-      Forall (fun v => v < 2 ^ sb) d1 -> Forall (fun v => v < 2 ^ sb) d2 ->
-      (1 <= hamming d1 d2 <= 3)%nat -> N.lxor (pm c d1) (pm c d2) <> D.
+  Theorem certificateV_sound D n : certificateV D n = true ->
+    forall c x1 x2 r1 r2, length r1 = n -> length r2 = n -> x1 <> x2 ->
+      x1 < 2 ^ sb -> x2 < 2 ^ sb -> Forall (fun v => v < 2 ^ sb) r1 -> Forall (fun v => v < 2 ^ sb) r2 ->
+      (hamming r1 r2 <= 2)%nat -> N.lxor (pm c (x1 :: r1)) (pm c (x2 :: r2)) <> D.
   Proof.
-    unfold certificateX. intros C c d1 d2 Hl HL H1 H2 Hh. apply andb_true_iff in C. destruct C as [C1 C2].
-    rewrite hamming_weight in Hh.
-    pose proof (pm_linear gens shift sb d1 d2 c c Hl) as P. rewrite N.lxor_nilpotent in P. rewrite <- P.
-    apply (no_light_coset (buildM L) D L C1 C2); [rewrite xorl_length; assumption|apply xorl_small; assumption|assumption].
+    unfold certificateV. intros C. apply andb_true_iff in C. destruct C as [C1 C2].
+    exact (anchored_coset (buildM n) D n C1 C2).
   Qed.
 End Detect.
